@@ -9,7 +9,6 @@ from ..astutil import call_name, calls_in, dotted, guard_atoms, lexical_guards, 
 from ..astutil import func_defaults
 from ..index import FuncInfo
 from ..report import Registry, sub
-from ..astutil import parent_map
 from ._helpers_rules_a import OPAQUE, SymExec as _SymExecBase, SymV, Unsupported
 from ._helpers_rob_c1 import inline_locals
 from ._helpers_rob_g1 import normal_form
@@ -39,6 +38,7 @@ MSSQL = "dialects/mssql/base.py::MSSQLCompiler"
 ORACLE = "dialects/oracle/base.py::OracleCompiler"
 L, O, F = SymV("limit"), SymV("offset"), SymV("fetch")
 CMP = {ast.Gt: ">", ast.GtE: ">=", ast.Lt: "<", ast.LtE: "<=", ast.Eq: "==", ast.NotEq: "!="}
+FLIP = {">": "<", ">=": "<=", "<": ">", "<=": ">=", "==": "==", "!=": "!="}
 
 
 class _HelperRaises(Exception):
@@ -216,13 +216,28 @@ def _hooks(case, selectvars=None, force=None):
             for a in n.args:
                 sx.ev(a.value if isinstance(a, ast.Starred) else a, env, events)
             return OPAQUE
-        if short == "where" and isinstance(f, ast.Attribute) and len(n.args) == 1:
+        if short in ("where", "filter") and isinstance(f, ast.Attribute) and n.args:
             sx.ev(f.value, env, events)
-            a = n.args[0]
-            if isinstance(a, ast.Compare) and len(a.ops) == 1 and type(a.ops[0]) in CMP:
-                events.append(("pred", CMP[type(a.ops[0])], sx.ev(a.left, env, events), sx.ev(a.comparators[0], env, events), n.lineno))
-            else:
-                sx.ev(a, env, events)
+
+            def preds_of(a):
+                # one comparison, several criteria in one call, and_(..) / `&` of comparisons: all are conjunctions
+                if isinstance(a, ast.Compare) and len(a.ops) == 1 and type(a.ops[0]) in CMP:
+                    op, lft, rgt = CMP[type(a.ops[0])], sx.ev(a.left, env, events), sx.ev(a.comparators[0], env, events)
+                    is_col = lambda v: isinstance(v, tuple) and bool(v) and v[0] == "col"  # noqa: E731
+                    if is_col(rgt) and not is_col(lft):   # `offset < rn` is `rn > offset`
+                        op, lft, rgt = FLIP[op], rgt, lft
+                    events.append(("pred", op, lft, rgt, n.lineno))
+                elif isinstance(a, ast.Call) and (call_name(a) or "").rsplit(".", 1)[-1] == "and_":
+                    for x in a.args:
+                        preds_of(x)
+                elif isinstance(a, ast.BinOp) and isinstance(a.op, ast.BitAnd):
+                    preds_of(a.left)
+                    preds_of(a.right)
+                else:
+                    sx.ev(a, env, events)
+
+            for a in n.args:
+                preds_of(a.value if isinstance(a, ast.Starred) else a)
             return OPAQUE
         if short in ("limit_clause", "fetch_clause", "_row_limit_clause") and isinstance(f, ast.Attribute):
             recv = "super" if isinstance(f.value, ast.Call) else dotted(f.value)
@@ -961,7 +976,21 @@ def _raises_on_options(fn: FuncInfo) -> bool:
 def _option_reads_deep(ix, f: FuncInfo):
     """option keys read by `f` or by the same-class / same-module helpers it calls (one level)."""
     keys = _option_reads(f.node)
+    pm = f.module.parents()
+
+    def predicate_use(c):
+        # the call decides something (`if .. and self._use_top(select):`): what it reads is not rendered
+        child, cur = c, pm.get(c)
+        while cur is not None and not isinstance(cur, ast.stmt):
+            if isinstance(cur, (ast.BoolOp, ast.Compare)) or (isinstance(cur, ast.UnaryOp) and isinstance(cur.op, ast.Not)) \
+                    or (isinstance(cur, ast.IfExp) and child is cur.test) or (isinstance(cur, ast.comprehension) and any(child is t for t in cur.ifs)):
+                return True
+            child, cur = cur, pm.get(cur)
+        return isinstance(cur, (ast.If, ast.While, ast.Assert)) and child is cur.test
+
     for c in calls_in(f.node):
+        if predicate_use(c):
+            continue
         fn = c.func
         tgt = None
         if isinstance(fn, ast.Attribute) and isinstance(fn.value, ast.Name) and fn.value.id == "self" and f.cls is not None:
@@ -1218,3 +1247,11 @@ R.mutant('benign-mssql-options-check-bool-local', 'dialects/mssql/base.py',
 R.mutant('benign-pg-fetch-suffix-helper', 'dialects/postgresql/base.py',
          sub('                (\n                    "WITH TIES"\n                    if select._fetch_clause_options["with_ties"]\n                    else "ONLY"\n                ),\n            )\n        return text\n',
              '                self._fetch_suffix(select),\n            )\n        return text\n\n    def _fetch_suffix(self, select):\n        if select._fetch_clause_options["with_ties"]:\n            return "WITH TIES"\n        return "ONLY"\n'), None)
+
+# rob-H2: several criteria in one where() call
+R.mutant('benign-mssql-bounds-in-one-where-call', 'dialects/mssql/base.py',
+         sub('                limitselect = limitselect.where(mssql_rn > offset_clause)\n                if limit_clause is not None:\n                    limitselect = limitselect.where(\n                        mssql_rn <= (limit_clause + offset_clause)\n                    )\n',
+             '                if limit_clause is not None:\n                    limitselect = limitselect.where(\n                        mssql_rn > offset_clause,\n                        mssql_rn <= (limit_clause + offset_clause),\n                    )\n                else:\n                    limitselect = limitselect.where(mssql_rn > offset_clause)\n'), None)
+R.mutant('r1-mssql-one-where-call-lower-bound-inclusive', 'dialects/mssql/base.py',
+         sub('                limitselect = limitselect.where(mssql_rn > offset_clause)\n                if limit_clause is not None:\n                    limitselect = limitselect.where(\n                        mssql_rn <= (limit_clause + offset_clause)\n                    )\n',
+             '                if limit_clause is not None:\n                    limitselect = limitselect.where(\n                        mssql_rn >= offset_clause,\n                        mssql_rn <= (limit_clause + offset_clause),\n                    )\n                else:\n                    limitselect = limitselect.where(mssql_rn > offset_clause)\n'), 'C18-R1')
